@@ -254,6 +254,18 @@ def string_equality(ctx, P, rule="STR-EQUAL", floor=5):
                                    "lengths compared with %s next to memcmp" % b.op if ok else
                                    "`%s %s %s` next to a memcmp: a string that merely has the other as prefix compares equal" % (l, b.op, r))
                             k += 1
+                            # the memcmp in the same condition compares exactly that many bytes: its length argument is one of
+                            # the two lengths just tested equal, and its operands are the strings those lengths belong to
+                            if ok and b.op == "==":
+                                for c in walk(cond):
+                                    if c.k == "CallExpr" and callee(c) in ("tsk_memcmp", "memcmp", "strncmp") and len(c.kids) >= 4:
+                                        ln = xstr(c.kids[3], al)
+                                        n += 1
+                                        okl = ln in (l, r)
+                                        ctx.ob(rule, "%s@%d|memcmp-length" % (fn.name, k - 1), okl, tu.loc(c),
+                                               "memcmp over `%s` bytes, one of the lengths tested equal" % ln if okl else
+                                               "memcmp compares `%s` bytes although the lengths tested equal are `%s` and `%s`: an "
+                                               "unrelated length matches by prefix or reads past the shorter string" % (ln, l, r))
     ctx.floor(rule, floor)
 
 
